@@ -2,7 +2,7 @@
 
 from __future__ import annotations
 
-from .. import gen, oracles as O, rig
+from .. import gen, oracles as O, rig, tconc
 from ..view import View
 from . import common
 
@@ -90,6 +90,8 @@ def work(ctx, tier):
         sc["calls"] = [sc["calls"][0], dict(sc["calls"][0])]
         _one(ctx, sc, ENTRIES[i % len(ENTRIES)], stats)
         ctx.inc("sweep_scenarios")
+    # whole calls racing in threads on ONE policy object and ONE breaker: each call's record is its own
+    tconc.thread_slice(ctx, tier, common.rng_for(ctx, "threads"), ["breaker", "identity"], budget=False, breaker=True)
     common.flush_stats(ctx, stats)
 
 
@@ -106,11 +108,12 @@ def conclude(ctx):
         "rejected_calls": (ctx.cnt["rejected_calls"], 200),
         "attempt_hook_fault_calls": (ctx.cnt["attempt_hook_fault_calls"], 200),
     }
+    floors.update(tconc.floors(ctx))
     return dict(
         rule=(
             "random sequences of 1-6 policy calls sharing one spied real CircuitBreaker (all stop reasons, both causes, handlers, aborts, special exceptions, no-retry policies) over the 6 "
             "breaker-carrying entry points + sweep of outcome strings x cap grids; non-trivial = an admitted call whose record was compared with its scripted final outcome; "
-            "cells record:<records seen>/<how the call ended>"
+            "cells record:<records seen>/<how the call ended>" + tconc.RULE
         ),
         evaluations=ctx.cnt["calls"],
         nontrivial=len(ctx.sets["nontrivial"]),
